@@ -80,6 +80,7 @@ let init () =
              let f = b.bf_font in
              "F " ^ Stdlib.String.concat " " (Stdlib.List.map z_out
                       [f.f_iw; f.f_ih; f.f_cw; f.f_ch; f.f_sp; f.f_base; f.f_ul.d_off; f.f_ul.d_h; f.f_st.d_off; f.f_st.d_h])
+             ^ " D " ^ z_out b.bf_digest
              ^ " I " ^ list_out (fun c -> z_out (Fontbuiltin.builtin_index b c)) probes)
     | _ -> "BAD-ARGS");
   register "c14_bi_count" (fun _ -> z_out Fontbuiltin.font_count ^ " " ^ z_out Fontbuiltin.mapping_count);
